@@ -95,7 +95,7 @@ func (m *Machine) obligation(kind, label string, c *Term, fr *Frame) {
 				if same.True() {
 					ob2.Verdict, ob2.Trivial = "holds", true
 				} else {
-					v, model := m.sol.Check(tb, []*Term{tb.Not(same)}, m.inputTerms())
+					v, model := m.sol.CheckHard(tb, []*Term{tb.Not(same)}, m.inputTerms())
 					switch v {
 					case Unsat:
 						ob2.Verdict = "holds"
@@ -131,7 +131,7 @@ func (m *Machine) obligation(kind, label string, c *Term, fr *Frame) {
 		return
 	}
 	nc := tb.Not(c)
-	v, model := m.sol.Check(tb, []*Term{nc}, m.inputTerms())
+	v, model := m.sol.CheckHard(tb, []*Term{nc}, m.inputTerms())
 	switch v {
 	case Unsat:
 		ob.Verdict = "holds"
